@@ -409,6 +409,23 @@ class C06(object):
                     return {"class": "count-differs", "key": "indexer.histogram_drlv_fit:count-differs",
                             "detail": "histogram_drlv_fit: bin %d [%g, %g) holds %s peaks, %d peaks have their |drlv| there" %
                                       (kb, edges[kb], edges[kb + 1], goth[kb] if kb >= 0 else "?", wanth[kb])}, len(gs["trials"])
+        if np.isfinite(gv).all() and n > 1:
+            # the indexer is given other g-vectors of the same number (the next grid point of a map, a second file): scores
+            # and indexed peaks are those of the g-vectors it holds now
+            g3 = np.random.default_rng(gs["bseed"] + 5)
+            gv2 = np.ascontiguousarray(gv[g3.permutation(n)] * np.array([1.0, 1.03, 0.98]) + g3.normal(0, 2e-3, (n, 3)))
+            teff = float(desc["tol"])
+            ss2 = hkl_errors(ubi, gv2)[2]
+            if np.abs(ss2 - teff * teff).min() > 1e-12:
+                with contextlib.redirect_stdout(io.StringIO()):
+                    ix.gv = gv2
+                    cnt2 = ix.score(ubi, teff)
+                    got2 = np.asarray(ix.getind(ubi, teff))
+                want2 = ss2 < teff * teff
+                if int(cnt2) != int(want2.sum()) or got2.shape != want2.shape or (got2 != want2).any():
+                    return {"class": "count-differs", "key": "indexer.score:count-differs",
+                            "detail": "after the indexer was given %d other g-vectors: score %d / getind %d, %d lie within the tolerance" %
+                                      (n, int(cnt2), int(got2.sum()), int(want2.sum()))}, len(gs["trials"])
         v = enginea.viol_from_stats(sim.stats(), "indexer.getind", {})
         return v, len(gs["trials"])
 
